@@ -151,6 +151,8 @@ def run_stage(stage, prop, tier, seed, plan, workdir, build, cargo_env, log):
            "samples": []}
     sp = plan["stage_plans"][stage]
     t0 = time.time()
+    if stage == "offline":
+        return run_offline(prop, tier, seed, sp, workdir, build, cargo_env, log)
     try:
         if stage == "memcheck":
             binary, _, _ = build("mon")
@@ -285,4 +287,46 @@ def run_stage(stage, prop, tier, seed, plan, workdir, build, cargo_env, log):
                             "reports": reports, "wall_s": round(time.time() - t0, 1)})
     log(f"  stage {stage}: {res['evaluations']} histories, {tool_calls} calls, {reports} reports, "
         f"{len(res['inconclusive'])} inconclusive, {time.time() - t0:.1f}s")
+    return res
+
+
+def run_offline(prop, tier, seed, sp, workdir, build, cargo_env, log):
+    """Second oracle (DESIGN §3.12): dump call/return logs of histories the Rust monitors judged as held and
+    re-judge them with the independent Python implementation; a disagreement is a defect of the machinery."""
+    import sys
+    res = {"coverage": {}, "violations": [], "inconclusive": [], "evaluations": 0, "nontrivial": [], "calls": 0, "samples": []}
+    t0 = time.time()
+    try:
+        binary, _, _ = build("mon")
+    except Exception as e:  # noqa: BLE001
+        res["inconclusive"].append(f"offline: build failed: {str(e)[-500:]}")
+        return res
+    env = _env_for("mon", cargo_env())
+    procs = []
+    for i in range(sp["shards"]):
+        out = os.path.join(workdir, f"shard-offline-{i}.json")
+        cmd = _shard_cmd([binary], prop, tier, seed + 77, i, sp["shards"], sp["count"], workdir, sp["budget_s"], "dump", out)
+        procs.append(subprocess.Popen(cmd, env=env, stdout=subprocess.DEVNULL, stderr=subprocess.DEVNULL))
+    for p in procs:
+        try:
+            p.wait(timeout=sp["watchdog_s"])
+        except subprocess.TimeoutExpired:
+            p.kill()
+            res["inconclusive"].append("offline: dump shard watchdog fired")
+    pr = subprocess.run([sys.executable, os.path.join(ROOT, "offline", "check_log.py"), workdir], capture_output=True, text=True)
+    try:
+        summary = json.loads(pr.stdout.strip().splitlines()[-1])
+    except Exception:  # noqa: BLE001
+        res["inconclusive"].append(f"offline: second oracle did not run: {pr.stderr[-300:]}")
+        return res
+    res["coverage"] = {"second_oracle": "offline/check_log.py (independent Python re-implementation of the C01 trace rules, the group "
+                                        "model, data()/kid() read-back and next_id() freshness)", **summary,
+                       "wall_s": round(time.time() - t0, 1)}
+    if summary.get("disagreements", 0) > 0:
+        res["inconclusive"].append(f"offline: the two oracle implementations disagree on {summary['disagreements']} histories: "
+                                   f"{summary['first'][0]['message'] if summary.get('first') else ''}")
+    if summary.get("histories", 0) < 100:
+        res["inconclusive"].append(f"offline: only {summary.get('histories', 0)} histories were dumped")
+    log(f"  stage offline: second oracle re-judged {summary.get('histories')} histories / {summary.get('calls')} calls, "
+        f"{summary.get('disagreements')} disagreements, {time.time() - t0:.1f}s")
     return res
